@@ -4,6 +4,8 @@ import (
 	"fmt"
 	"go/types"
 	"strings"
+
+	"golang.org/x/tools/go/ssa"
 )
 
 // Rules on the dump side: readDBI, SendOnce$1 (C01-R3, C04-R1, C06).
@@ -61,7 +63,15 @@ func ruleReadDBILoop(c *Check, rule string, forMarkers bool) {
 		switch {
 		case strings.HasPrefix(p.End, "backedge:"):
 			// the cursor operation of the next Get: the loop-carried uint
-			fl := backedgeVal(p, loopPhiOfType(loopFn, func(t types.Type) bool { b, ok := t.Underlying().(*types.Basic); return ok && b.Kind() == types.Uint }))
+			isUint := func(t types.Type) bool { b, ok := t.Underlying().(*types.Basic); return ok && b.Kind() == types.Uint }
+			fl := backedgeVal(p, loopPhiOfType(loopFn, isUint))
+			if fl == "" {
+				// the cursor operation kept in a variable in memory (its address is
+				// handed to a helper): what it holds when the iteration ends
+				if nm := allocOfType(fn, isUint); nm != "" {
+					fl = p.Store["&alloc:"+nm]
+				}
+			}
 			if fl != "" {
 				flagNext = fl
 			}
@@ -112,7 +122,24 @@ func ruleReadDBILoop(c *Check, rule string, forMarkers bool) {
 	// cursor positions: First, then Next
 	first, _ := c.constValue2("github.com/PowerDNS/lmdb-go/lmdb", "First")
 	next, _ := c.constValue2("github.com/PowerDNS/lmdb-go/lmdb", "Next")
-	init := phiInitOf(loopFn, loopPhiOfType(loopFn, func(t types.Type) bool { b, ok := t.Underlying().(*types.Basic); return ok && b.Kind() == types.Uint }))
+	isUintT := func(t types.Type) bool { b, ok := t.Underlying().(*types.Basic); return ok && b.Kind() == types.Uint }
+	init := phiInitOf(loopFn, loopPhiOfType(loopFn, isUintT))
+	if init == "" {
+		// a variable in memory: the constant stored into it before the loop
+		if nm := allocOfType(fn, isUintT); nm != "" {
+			for _, b := range fn.Blocks {
+				for _, in := range b.Instrs {
+					if st, ok := in.(*ssa.Store); ok {
+						if a, ok := st.Addr.(*ssa.Alloc); ok && a.Comment == nm && !blockInLoop(b) {
+							if k, ok := st.Val.(*ssa.Const); ok {
+								init = constStr(k)
+							}
+						}
+					}
+				}
+			}
+		}
+	}
 	c.Expect(init == "const:"+first && flagNext == "const:"+next && first != "" && next != "", rule, fnReadDBI+"/cursor-order",
 		"the cursor starts at lmdb.First and every continuing iteration uses lmdb.Next",
 		fmt.Sprintf("cursor flag starts as %s (lmdb.First=%s) and continues with %s (lmdb.Next=%s)", init, first, flagNext, next), pos)
